@@ -79,6 +79,10 @@ add("C04", "runtime monitoring: sys.monitoring probes on the seven mutation move
     "Initial circuits for all small (n_photon, n_emitter) with random assignments and TimeReversedSolver outputs are mutated by random sequences of up to 300 moves (uniform and with the solvers' own probabilities), and complete EvolutionarySolver / HybridEvolutionarySolver runs with small populations are observed; after every move: validate(), structural DAG check, no photon-photon two-qubit operation, first operation of every photon is its emission CNOT from an emitter, afterwards only one-qubit gates or measurement-controlled corrections targeting it, no Fixed emission CNOT / measure-and-reset lost.",
     TRUST, "DESIGN.md section 5, C04")
 
+add("C19", "runtime monitoring: history checker over solver runs - a probe on update_hof records per-generation hall-of-fame scores and object identities (aliasing with the population); solve() results are re-evaluated by the harness and by the reference; reproducibility is decided by repeating each seeded configuration in-process and in fresh processes under different PYTHONHASHSEED values (fault injection)",
+    "Configurations over targets x solver (Evolutionary 1-3 emitters, Hybrid) x backend x population / generations / hall-of-fame size / tournament / selection / adaptive x seed are each solved twice in the worker and once in two fresh processes with PYTHONHASHSEED 1 and 2: halls of fame (scores and exported circuits) must be identical; per generation the hall of fame is non-decreasing and the best score never gets worse; stored circuits are distinct objects sharing no operation with the population; every stored score equals the metric pipeline re-run on the stored circuit and the reference-judged infidelity; result is the best entry.",
+    TRUST + "Small populations / few generations only.", "DESIGN.md section 5, C19")
+
 NOT_YET = {
 }
 
